@@ -249,12 +249,39 @@ pub trait SomeIface {
     type Param;
 }
 
-fn remote_views<T: ?Sized>(addr: &Addr) -> Result<(String, String, Value), String> {
+/// Does the (concrete) type implement `JsonSchema`?  Resolved per call site: the inherent method
+/// is chosen when the bound holds, the blanket trait method otherwise -- so a parameterisation
+/// that loses its schema is reported at run time instead of breaking the harness' build.
+struct SchemaProbe<T: ?Sized>(std::marker::PhantomData<T>);
+trait NoSchema {
+    fn root(&self) -> Option<Value> {
+        None
+    }
+    fn sub(&self, _g: &mut schemars::gen::SchemaGenerator) -> Option<Value> {
+        None
+    }
+}
+impl<T: ?Sized> NoSchema for SchemaProbe<T> {}
+impl<T: ?Sized + schemars::JsonSchema> SchemaProbe<T> {
+    fn root(&self) -> Option<Value> {
+        Some(serde_json::to_value(schemars::schema_for!(T)).unwrap())
+    }
+    fn sub(&self, g: &mut schemars::gen::SchemaGenerator) -> Option<Value> {
+        Some(serde_json::to_value(g.subschema_for::<T>()).unwrap())
+    }
+}
+macro_rules! probe {
+    ($t:ty) => {
+        SchemaProbe::<$t>(std::marker::PhantomData)
+    };
+}
+
+fn remote_views<T: ?Sized>(addr: &Addr, schema: Option<Value>) -> Result<(String, String, Value), String> {
     let owned: Remote<'static, T> = Remote::new(addr.clone());
     let borrowed: Remote<'_, T> = Remote::borrowed(addr);
     let a = sylvia::cw_std::to_json_string(&owned).map_err(|e| e.to_string())?;
     let b = sylvia::cw_std::to_json_string(&borrowed).map_err(|e| e.to_string())?;
-    let schema = serde_json::to_value(schemars::schema_for!(Remote<'static, T>)).unwrap();
+    let schema = schema.ok_or_else(|| "SCHEMA-MISSING".to_string())?;
     Ok((a, b, schema))
 }
 
@@ -293,13 +320,16 @@ pub fn c20(_p: &Prog, cfg: &Cfg, rep: &mut Report) {
             let mut refs = vec![];
             for i in &seq {
                 let sub = match i {
-                    0 => g.subschema_for::<Remote<'static, SomeContract>>(),
-                    1 => g.subschema_for::<Remote<'static, ()>>(),
-                    2 => g.subschema_for::<Remote<'static, str>>(),
-                    3 => g.subschema_for::<Remote<'static, dyn SomeIface<Error = StdError, Param = u32>>>(),
-                    _ => g.subschema_for::<Remote<'static, dyn SomeIface<Error = (), Param = String>>>(),
+                    0 => probe!(Remote<'static, SomeContract>).sub(&mut g),
+                    1 => probe!(Remote<'static, ()>).sub(&mut g),
+                    2 => probe!(Remote<'static, str>).sub(&mut g),
+                    3 => probe!(Remote<'static, dyn SomeIface<Error = StdError, Param = u32>>).sub(&mut g),
+                    _ => probe!(Remote<'static, dyn SomeIface<Error = (), Param = String>>).sub(&mut g),
                 };
-                refs.push(serde_json::to_value(&sub).unwrap());
+                let Some(sub) = sub else {
+                    return Err(viol("remote:schema-missing", "a parameterisation of the handle has no JSON schema", json!({"parameterisation": i})));
+                };
+                refs.push(sub);
             }
             let defs: Vec<String> = g.definitions().keys().filter(|k| k.starts_with("Remote")).cloned().collect();
             let mut distinct = seq.clone();
@@ -319,17 +349,23 @@ pub fn c20(_p: &Prog, cfg: &Cfg, rep: &mut Report) {
         tally.nontrivial(&s);
         tally.sample(|| json!({"addr": s}));
         let views = [
-            ("SomeContract", remote_views::<SomeContract>(&addr)),
-            ("unit", remote_views::<()>(&addr)),
-            ("str(unsized)", remote_views::<str>(&addr)),
-            ("dyn SomeIface<..>", remote_views::<dyn SomeIface<Error = StdError, Param = u32>>(&addr)),
-            ("dyn SomeIface<other>", remote_views::<dyn SomeIface<Error = (), Param = String>>(&addr)),
+            ("SomeContract", remote_views::<SomeContract>(&addr, probe!(Remote<'static, SomeContract>).root())),
+            ("unit", remote_views::<()>(&addr, probe!(Remote<'static, ()>).root())),
+            ("str(unsized)", remote_views::<str>(&addr, probe!(Remote<'static, str>).root())),
+            ("dyn SomeIface<..>", remote_views::<dyn SomeIface<Error = StdError, Param = u32>>(&addr, probe!(Remote<'static, dyn SomeIface<Error = StdError, Param = u32>>).root())),
+            ("dyn SomeIface<other>", remote_views::<dyn SomeIface<Error = (), Param = String>>(&addr, probe!(Remote<'static, dyn SomeIface<Error = (), Param = String>>).root())),
         ];
         let want = json!({"addr": s});
         let model_text = want.to_string();
         let mut first: Option<(String, Value)> = None;
         for (label, r) in views {
-            let (owned, borrowed, schema) = r.map_err(|e| viol("remote:ser-fail", "remote handle does not serialise", json!({"type": label, "error": e})))?;
+            let (owned, borrowed, schema) = r.map_err(|e| {
+                if e == "SCHEMA-MISSING" {
+                    viol("remote:schema-missing", "a parameterisation of the handle has no JSON schema", json!({"type": label}))
+                } else {
+                    viol("remote:ser-fail", "remote handle does not serialise", json!({"type": label, "error": e}))
+                }
+            })?;
             if owned != borrowed {
                 return Err(viol("remote:owned-vs-borrowed", "owned and borrowed handles encode differently", json!({"type": label, "owned": owned, "borrowed": borrowed})));
             }
